@@ -145,7 +145,8 @@ class Ctx:
 
     def check_floors(self) -> None:
         for rule, st in self.rules.items():
-            if st.floor is not None and st.obligations < st.floor:
+            # the hand-confirmed count minus 30 % slack: moderate refactors must not trip the guard, a vanished anchor must
+            if st.floor is not None and st.obligations < max(1, int(0.7 * st.floor)):
                 raise AnalysisError(
                     f"rule {rule}: only {st.obligations} instances analysed, floor confirmed by hand is {st.floor} "
                     f"(anchor moved or idiom no longer recognised)"
